@@ -403,7 +403,7 @@ def fwd_convention(prog: Program, res: Result, functions: Iterable[str]) -> None
             while id(cur) in parents:
                 par = parents[id(cur)]
                 if isinstance(par, ast.If) and any(cur is b for b in par.body):
-                    t = ast.unparse(par.test).replace(" ", "")
+                    t = fi.rtext(par.test).replace(" ", "")       # extracted locals (`nothing_to_do = order.size == 0 or ...`) read as their definition
                     if ".size==0" in t or "ndims==1" in t or "arange" in t or "len(" in t and "==0" in t or "ndims==0" in t:
                         trivial = True
                 cur = par
@@ -413,7 +413,7 @@ def fwd_convention(prog: Program, res: Result, functions: Iterable[str]) -> None
             if not trivial and isinstance(body, list) and r in body:
                 for prev in body[:body.index(r)]:
                     if isinstance(prev, ast.If) and prev.body and isinstance(prev.body[-1], ast.Return) and not prev.orelse:
-                        t = ast.unparse(prev.test).replace(" ", "")
+                        t = fi.rtext(prev.test).replace(" ", "")
                         if t in ("notself.subs.size==0", "self.subs.size!=0", "self.subs.size>0", "self.nnz>0", "self.nnz!=0", "notself.nnz==0"):
                             trivial = True
             if not trivial:
